@@ -153,17 +153,24 @@ where
             })
     }
 
-    /// Set memory permissions for the page at the given address
+    /// Set memory permissions for every page which holds a byte of the range
+    /// `address..address + len`
     pub fn set_permissions(&mut self, address: u64, len: u64, permissions: MemoryPermissions) {
+        if len == 0 {
+            return;
+        }
+        let last_page_address = address.saturating_add(len - 1) & PAGE_MASK;
         let mut page_address = address & PAGE_MASK;
-        let total_length = len + (address - page_address);
-        while page_address < total_length {
+        loop {
             RC::make_mut(
                 self.pages
                     .entry(page_address)
                     .or_insert_with(|| RC::new(Page::new(PAGE_SIZE))),
             )
             .set_permissions(Some(permissions));
+            if page_address == last_page_address {
+                break;
+            }
             page_address += PAGE_SIZE as u64;
         }
     }
